@@ -266,7 +266,10 @@ func runC17(r *core.Run) {
 			}
 		}
 	}
-	for _, cn := range []string{"table+align=attr", "gfm+align=style"} {
+	// the alignment method through both documented channels (an option of NewTable, a renderer option), every method that
+	// writes an alignment, alone and next to other renderer options
+	for _, cn := range []string{"table+align=attr", "gfm+align=style", "table+align=default", "table+xhtml+align=default", "table+align=default-ro", "table+xhtml+align=default-ro",
+		"table+align=attr-ro", "gfm+unsafe+xhtml+hardwraps+align=style-ro", "gfm+unsafe+hardwraps+align=default-ro", "table"} {
 		cfg := core.MustCfg(cn)
 		if cn != "table+align=attr" && r.Quick() {
 			maxRows = 0
